@@ -326,6 +326,12 @@ func readExportCBORNode(expectedSize int64, cidStr string, reader *tar.Reader) (
 		return nil, errcode.ErrCode_ErrInvalidInput.Wrap(fmt.Errorf("entry CID doesn't match file CID"))
 	}
 
+	// the decoder ignores what follows the object: the file itself has to
+	// be the block named by the CID
+	if !bytes.Equal(node.RawData(), nodeContents.Bytes()) {
+		return nil, errcode.ErrCode_ErrInvalidInput.Wrap(fmt.Errorf("entry bytes don't match file CID"))
+	}
+
 	return node, nil
 }
 
